@@ -10,6 +10,10 @@ def for_property(pid, tier):
 
 
 MODELS = [
+    {"name": "MC_Ledger (<= 3 blocks with transaction content, one ingestion operation per step: mechanisms = reference)",
+     "module": "MC_Ledger", "cfg": "MC_Ledger_quick.cfg", "props": ["C01", "C05", "C08", "C20"], "tiers": ["quick"], "workers": 12, "timeout": 900},
+    {"name": "MC_Ledger (<= 4 blocks with transaction content, one ingestion operation per step: mechanisms = reference)",
+     "module": "MC_Ledger", "cfg": "MC_Ledger_thorough.cfg", "props": ["C01", "C04", "C05", "C08", "C20"], "tiers": ["thorough"], "workers": 16, "timeout": 7000, "heap": "24g"},
     {"name": "MC_Sync (2 overlapping heartbeats, <= 2 pages, <= 3 faults: safety + liveness under fairness)",
      "module": "MC_Sync", "cfg": "MC_Sync_quick.cfg", "props": ["C13"], "tiers": ["quick"], "workers": 8, "timeout": 900},
     {"name": "MC_Sync (3 overlapping heartbeats, <= 3 pages, <= 5 faults: safety + liveness under fairness)",
